@@ -608,6 +608,16 @@ class Otherwise(BinaryQuery):
     JOINT = " OTHERWISE "
 
     def matcher(self, searcher, context=None):
+        # Whether the first clause "matches any documents" is a question about
+        # the whole index, not about the segment this matcher is built for
+        parent = searcher.get_parent()
+        if parent is not searcher:
+            pm = self.a.matcher(parent, parent.boolean_context())
+            if pm.is_active():
+                return self.a.matcher(searcher, context)
+            else:
+                return self.b.matcher(searcher, context)
+
         m = self.a.matcher(searcher, context)
         if not m.is_active():
             m = self.b.matcher(searcher, context)
